@@ -172,28 +172,29 @@ type TFact struct {
 }
 
 type absint struct {
-	diffBusy    bool
-	nnBusy      map[*ssa.Function]bool
-	linBusy     bool
-	edgeCtx     map[ssa.Instruction][]TFact
-	phiProof    map[*ssa.Phi]bool
-	w           *World
-	memo        map[ssa.Value]ival
-	assume      map[ssa.Value]ival
-	inSolve     bool
-	fieldMemo   map[*types.Var]*ival
-	paramMemo   map[*ssa.Parameter]*ival
-	globalNN    map[*ssa.Global]int
-	flMemo      map[flKey]*flRes
-	inFieldLen  bool
-	depth       int
-	active      map[ssa.Value]bool
-	wraps       map[*ssa.BinOp]ival   // arithmetic whose ℤ result does not fit its type
-	narrow      map[*ssa.Convert]ival // conversions that may lose value
-	fieldInv    map[*types.Var]ival   // assumed field invariants (proved by induction by their rule)
-	implMemo    map[implKey][]TFact
-	lenPosts    map[interface{}]*lenPostCand
-	callLenBusy map[*ssa.Function]bool
+	diffBusy      bool
+	nnBusy        map[*ssa.Function]bool
+	linBusy       bool
+	edgeCtx       map[ssa.Instruction][]TFact
+	phiProof      map[*ssa.Phi]bool
+	w             *World
+	memo          map[ssa.Value]ival
+	assume        map[ssa.Value]ival
+	inSolve       bool
+	fieldMemo     map[*types.Var]*ival
+	paramMemo     map[*ssa.Parameter]*ival
+	globalNN      map[*ssa.Global]int
+	flMemo        map[flKey]*flRes
+	inFieldLen    bool
+	depth         int
+	active        map[ssa.Value]bool
+	wraps         map[*ssa.BinOp]ival   // arithmetic whose ℤ result does not fit its type
+	narrow        map[*ssa.Convert]ival // conversions that may lose value
+	fieldInv      map[*types.Var]ival   // assumed field invariants (proved by induction by their rule)
+	implMemo      map[implKey][]TFact
+	lenPosts      map[interface{}]*lenPostCand
+	callLenBusy   map[*ssa.Function]bool
+	callLenAtBusy bool
 }
 
 type implKey struct {
@@ -987,9 +988,109 @@ func (a *absint) rangeOfTerm(t Term, at ssa.Instruction, depth int) ival {
 	}
 	if t.Len {
 		r := a.lenOf(t.V)
+		if rr, ok := a.callLenAt(t.V, at); ok {
+			if m := r.meet(rr); !m.empty() {
+				r = m
+			}
+		}
 		return a.refine(t, r, at, depth)
 	}
 	return a.rangeAt(t.V, at, depth)
+}
+
+// callLenAt: the length of a slice result of a module helper as seen at `at`: only the
+// helper's returns compatible with what is known there about the call's other results
+// (err == nil, ok == true) contribute.
+func (a *absint) callLenAt(v ssa.Value, at ssa.Instruction) (ival, bool) {
+	if at == nil || a.callLenAtBusy {
+		return ival{}, false
+	}
+	w := a.w
+	call, idx := callOf(stripIface(w.resolveLoad(v)))
+	if call == nil || w.isSynthetic(call) {
+		return ival{}, false
+	}
+	h := call.Call.StaticCallee()
+	if h == nil || !w.IsMod[h] || len(h.Blocks) == 0 {
+		return ival{}, false
+	}
+	if idx < 0 {
+		idx = 0
+	}
+	if idx >= h.Signature.Results().Len() {
+		return ival{}, false
+	}
+	if _, isSl := h.Signature.Results().At(idx).Type().Underlying().(*types.Slice); !isSl {
+		return ival{}, false
+	}
+	a.callLenAtBusy = true
+	defer func() { a.callLenAtBusy = false }()
+	type oc struct {
+		idx  int
+		want string
+	}
+	var known []oc
+	for _, f := range w.factsAt(at) {
+		x, outcome := factOutcome(f)
+		if x == nil {
+			continue
+		}
+		if fc, fi := callOf(w.resolveLoad(x)); fc == call {
+			if fi < 0 {
+				fi = 0
+			}
+			known = append(known, oc{fi, outcome})
+		}
+	}
+	if len(known) == 0 {
+		return ival{}, false
+	}
+	r := ival{1, 0}
+	n := 0
+	for _, ret := range returnsOf(h) {
+		if idx >= len(ret.Results) {
+			return ival{}, false
+		}
+		compatible := true
+		for _, k := range known {
+			if k.idx >= len(ret.Results) {
+				continue
+			}
+			rv := stripIface(w.resolveLoad(ret.Results[k.idx]))
+			switch k.want {
+			case "nil", "nonnil":
+				if cst, isC := rv.(*ssa.Const); isC {
+					if isNilConst(cst) != (k.want == "nil") {
+						compatible = false
+					}
+				} else if a.definitelyNonNil(rv) && k.want == "nil" {
+					compatible = false
+				} else {
+					for _, rf := range w.factsAt(ret) {
+						if fv, isNil, ok := nilFact(rf); ok && (fv == rv || w.sameKey(fv, rv)) && isNil != (k.want == "nil") {
+							compatible = false
+						}
+					}
+				}
+			case "true", "false":
+				if cst, isC := rv.(*ssa.Const); isC && cst.Value != nil && isBoolType(cst.Type()) {
+					if (cst.Value.String() == "true") != (k.want == "true") {
+						compatible = false
+					}
+				}
+			}
+		}
+		if !compatible {
+			continue
+		}
+		n++
+		res := w.resolveLoad(ret.Results[idx])
+		r = r.join(a.rangeOfTerm(Term{V: res, Len: true}, ret, 2))
+	}
+	if n == 0 || r.empty() {
+		return ival{}, false
+	}
+	return r.meet(ival{0, inf}), true
 }
 
 func (a *absint) rangeAt(v ssa.Value, at ssa.Instruction, depth int) ival {
